@@ -133,11 +133,18 @@ def check_output(d, meta, out, events=None):
                 return fail(ei, 'file header row for section %d missing' % ev[1], 'file row', 'end of output')
             return go(ei + 1, k + 1)
         if ev[0] == 'hunk':
+            # separators / decorations, then at most ONE hunk header row, then the rest of its decoration
             k = ri
-            while k < n and (infos[k].kind in ('blank', 'dec', 'hunk') or
-                             (infos[k].kind == 'text' and (text_skippable or infos[k].text.lstrip().startswith('@@')))):
+            while k < n and (infos[k].kind in ('blank', 'dec') or
+                             (infos[k].kind == 'text' and text_skippable and not infos[k].text.lstrip().startswith('@@'))):
                 k += 1
-            # greedy first; give back trailing blank rows (they may be empty hunk lines)
+            a_end = k
+            if k < n and (infos[k].kind == 'hunk' or (infos[k].kind == 'text' and infos[k].text.lstrip().startswith('@@'))):
+                k += 1
+                while k < n and infos[k].kind == 'dec':
+                    k += 1
+                return go(ei + 1, k)
+            # no header row for this hunk: trailing blank rows may be empty hunk lines - greedy first, then give them back
             if go(ei + 1, k):
                 return True
             while k > ri and infos[k - 1].kind == 'blank':
